@@ -255,3 +255,26 @@ def awaits(table):
         if h is None: raise Unsupported(f'await {txt}: no rely/guarantee contract given')
         return h(ex, e.value, st)
     return hook
+
+
+@contract('Block.is_initialized', qual='edzed.block:Block.is_initialized', modifies=(), self_cls='Block')
+def _is_initialized(c):
+    c.ensures('output_defined', c.rv == Val.B(c.pre('_output', c.z('self')) != Val.Undef))
+
+
+# ------------------------------------------------------------------------------------------ the event loop (trusted)
+from pyvc.engine import PyObjStub as _Stub
+import asyncio as _asyncio
+
+
+class LoopStub(_Stub):
+    """asyncio.get_running_loop(): only .time() (ghost clock `now`, a real number) is modelled generically"""
+    def call(self, ex, st, name, pos, named, node):
+        if name == 'time':
+            now = st.ghost.get('now')
+            if now is None: raise Unsupported('loop.time(): no ghost clock `now` in this proof')
+            return [(st, ZV('real', now))]
+        raise Unsupported(f'event loop method {name} has no contract')
+
+
+calls.BUILTIN_HANDLERS[id(_asyncio.get_running_loop)] = lambda ex, st, pos, named, node: [(st, PConst(LoopStub()))]
